@@ -186,6 +186,7 @@ theorem appendAll_single (db : DB) (e : Event) : (appendAll db [e]).1 = (append 
 theorem nexec_db (n : Node) (op : NOp) : ∃ evs, (nexec n op).db = (appendAll n.db evs).1 := by
   cases op with
   | lose => exact ⟨[], rfl⟩
+  | rt r => exact ⟨[], rfl⟩
   | ev r =>
     simp only [nexec, tstep]
     cases normalize r with
@@ -202,6 +203,10 @@ theorem nexec_db (n : Node) (op : NOp) : ∃ evs, (nexec n op).db = (appendAll n
     | none => exact ⟨[], rfl⟩
     | some e =>
       simp only
+      cases hl : n.leads e.msg.ch with
+      | false => exact ⟨[], by simp [appendAll]⟩
+      | true =>
+      simp only [Bool.not_true, Bool.false_eq_true, if_false]
       cases hty : e.ty <;> simp only
       case finish =>
         split
@@ -336,12 +341,12 @@ example :
     ordered batch; every flushed lane whose flush id is new and which is not durably terminal
     ends closed, carrying the cached snapshot unless the finish payload brings its own. -/
 theorem c40_finish_fail_closed :
-    (∀ (n : Node) (r : RawEvent) (ev : Event), normalize r = some ev → ev.ty = .finish →
+    (∀ (n : Node) (r : RawEvent) (ev : Event), normalize r = some ev → ev.ty = .finish → n.leads ev.msg.ch = true →
       openStates n.cache ev.msg = [] → hasSnapshot ev.pl = false →
       nstep n r = (n, .cachemiss, none)) ∧
-    (∀ (n : Node) (r : RawEvent) (ev : Event), normalize r = some ev → ev.ty = .finish →
+    (∀ (n : Node) (r : RawEvent) (ev : Event), normalize r = some ev → ev.ty = .finish → n.leads ev.msg.ch = true →
       hasSnapshot ev.pl = false → nstep (loseCache n) r = (loseCache n, .cachemiss, none)) ∧
-    (∀ (n : Node) (r : RawEvent) (ev : Event), normalize r = some ev → ev.ty = .finish →
+    (∀ (n : Node) (r : RawEvent) (ev : Event), normalize r = some ev → ev.ty = .finish → n.leads ev.msg.ch = true →
       ¬ (openStates n.cache ev.msg = [] ∧ hasSnapshot ev.pl = false) →
       (nstep n r).1.db = (appendAll n.db ((openStates n.cache ev.msg).map (flushEvent ev) ++ [ev])).1 ∧
       (nstep n r).2.1 = .ok) ∧
@@ -351,11 +356,13 @@ theorem c40_finish_fail_closed :
       ∃ l, aget (fin.msg, kl.1) (append db (flushEvent fin kl)).1.lanes = some l ∧ l.status = .closed ∧
         (kl.2.snap ≠ .none → (termOf fin.pl).1 = .none → snapIsJSON kl.2.snap = true → l.snap = kl.2.snap)) := by
   refine ⟨?_, ?_, ?_, ?_⟩
-  · intro n r ev hn hty ho hs
-    simp [nstep, hn, hty, ho, hs]
-  · intro n r ev hn hty hs
-    simp [nstep, hn, hty, hs, loseCache, openStates, aget]
-  · intro n r ev hn hty hno
+  · intro n r ev hn hty hl ho hs
+    simp [nstep, hn, hty, hl, ho, hs]
+  · intro n r ev hn hty hl hs
+    have hl' : (loseCache n).leads ev.msg.ch = true := hl
+    have ho : openStates (loseCache n).cache ev.msg = [] := by simp [loseCache, openStates, aget]
+    simp [nstep, hn, hty, hl', hs, ho]
+  · intro n r ev hn hty hl hno
     have : (List.isEmpty (openStates n.cache ev.msg) && !hasSnapshot ev.pl) = false := by
       cases ho : openStates n.cache ev.msg with
       | nil =>
@@ -363,7 +370,7 @@ theorem c40_finish_fail_closed :
         | false => exact absurd ⟨ho, hs⟩ hno
         | true => simp
       | cons a t => simp
-    simp only [nstep, hn, hty, this]
+    simp only [nstep, hn, hty, this, hl, Bool.not_true, Bool.false_eq_true, if_false]
     cases appendAll n.db ((openStates n.cache ev.msg).map (flushEvent ev) ++ [ev]) with
     | mk db' rs => simp
   · intro db fin kl ha hf
